@@ -239,7 +239,8 @@ pub fn crash_outcome(sc: &Scenario, sig: i32, _partial: &[u8]) -> Outcome {
     // runner::address_space_limit): an abort there is an allocation the cap refused, not a verdict
     let capped = sc.tree.entries.iter().any(|e| matches!(&e.kind, EntryKind::File(Content::Sparse { len, .. }) if *len > 1 << 30));
     match sc.property.as_str() {
-        "C04" | "C06" if !(capped && sig == libc::SIGABRT) => {
+        // (SIGKILL there is the kernel's out-of-memory killer: several such children at once)
+        "C04" | "C06" if !(capped && (sig == libc::SIGABRT || sig == libc::SIGKILL)) => {
             o.evaluated = true;
             o.verdicts.push(v(
                 &sc.property,
